@@ -40,9 +40,24 @@ MsgTypes == {"PrepareRequest", "PrepareResponse", "Commit", "ChangeView"}
 \* every behaviour starts in view 1 and messages are only sent in views <= MaxView
 MsgSpace == [type: MsgTypes, rm: RM, view: 1..MaxView]
 
+\* TypeGen is the P1 clause of IndInv written with explicit witnesses for the four
+\* pools; it is implied by P1 (a function with domain RM whose values are such
+\* records IS the function constructed below), so IndInit below denotes the same
+\* states as IndInv /\ ModelConstraint.  Apalache needs this form to *generate* an
+\* arbitrary state (used as a generator, P1 makes it enumerate SUBSET MsgSpace, 2^16 sets).
+TypeGen ==
+  \E t \in [RM -> StateTypes], w \in [RM -> 1..VB]:
+    \E p0 \in SUBSET MsgSpace, p1 \in SUBSET MsgSpace, p2 \in SUBSET MsgSpace, p3 \in SUBSET MsgSpace:
+      rmState = [r \in RM |-> [type |-> t[r], view |-> w[r],
+                               pool |-> IF r = 0 THEN p0 ELSE IF r = 1 THEN p1 ELSE IF r = 2 THEN p2 ELSE p3]]
+
 IndInv ==
-  \* P1/P2: bounded TypeOK
-  /\ rmState \in [RM -> [type: StateTypes, view: 1..VB, pool: SUBSET MsgSpace]]
+  \* P1/P2: bounded TypeOK; P1 is  rmState \in [RM -> [type: StateTypes, view: 1..VB, pool: SUBSET MsgSpace]]
+  \*        spelled out per node (the record type is fixed by the annotation of rmState)
+  /\ DOMAIN rmState = RM
+  /\ \A r \in RM: /\ rmState[r].type \in StateTypes
+                  /\ rmState[r].view \in 1..VB
+                  /\ rmState[r].pool \subseteq MsgSpace
   /\ msgs \in SUBSET MsgSpace
   \* P3..P5: fault bookkeeping
   /\ InvFaultNodesCount
@@ -54,6 +69,6 @@ IndInv ==
 
 \* The shipped state constraint of this model is ModelConstraint
 \* (= MaxViewConstraint /\ MaxUndeliveredMessageConstraint).
-IndInit == IndInv /\ ModelConstraint
+IndInit == TypeGen /\ IndInv /\ ModelConstraint
 Target == TypeOK /\ InvTwoBlocksAccepted /\ InvDeadlock /\ InvFaultNodesCount
 =============================================================================
